@@ -437,7 +437,8 @@ class DesignGen:
       # a list of identical sub-components (struct-free in yosys: finding F10d)
       has_struct_in = any(s.T[0] == 's' for s in ch.ins)
       if rng.random() < 0.25 and not (yos and has_struct_in) and not ch.ifcs:
-        n = rng.choice([2, 2, 2, (2, 2), (2, 3)])
+        # 2-D lists only of leaf components (a 2x3 grid of sub-hierarchies makes the flattened design very large)
+        n = rng.choice([2, 2, 2, 2, (2, 2), (2, 3)]) if not ch.children else 2
         self.features.add('comp-array' + ('' if isinstance(n, int) else '-2d'))
       c.children.append((f'c{k}', ch, n))
       def inst():
